@@ -457,6 +457,28 @@ def run_intervals(ctx, report, case, compare_model=True):
     return stats
 
 
+def gen_exhaustive_tiles(start, count):
+    """3x3 maps over {invalid, 0, 1} (tile number t in base 3), laid side by side with an invalid gutter column:
+    the centre pixel of every tile sees exactly its own tile (filter_size 3)"""
+    ny, nx = 3, 4 * count
+    disp = np.zeros((ny, nx))
+    flags = np.zeros((ny, nx), dtype=int)
+    for i in range(count):
+        t = start + i
+        for k in range(9):
+            v = (t // 3**k) % 3
+            r, c = k // 3, 4 * i + k % 3
+            if v == 0:
+                flags[r, c] = 64
+                disp[r, c] = -9999
+            else:
+                disp[r, c] = v - 1
+        flags[:, 4 * i + 3] = 1
+        disp[:, 4 * i + 3] = -9999
+    return {"kind": "median", "ny": ny, "nx": nx, "fs": 3, "disp": enc_arr(disp), "flags": flags.tolist(),
+            "conf": None, "indicators": None, "via_machine": False, "repeat": 1}
+
+
 def _check_case(ctx, report, case, compare_model=True):
     if case["kind"] == "median":
         st = run_median(ctx, report, case, compare_model)
@@ -546,21 +568,28 @@ def run(ctx, report, status):
     )
     for name, case in core.load_corpus(PROP):
         check_case(ctx, report, case)
-    for _ in range(ctx.n(90, 1500)):
+    if ctx.thorough:  # exhaustive small scope: every 3x3 neighbourhood over {invalid, 0, 1}
+        per = 729
+        for start in range(0, 3**9, per):
+            check_case(ctx, report, gen_exhaustive_tiles(start, per))
+            report.count("median_exhaustive_3x3_tiles", per)
+    else:
+        check_case(ctx, report, gen_exhaustive_tiles(rng.randrange(0, 3**9 - 60), 60))
+    for _ in range(ctx.n(90, 5000)):
         check_case(ctx, report, gen_median(rng))
         report.count("median_small")
     for shape in MEDIAN_BOUNDARY_QUICK + (MEDIAN_BOUNDARY_THOROUGH if ctx.thorough else []):
         for _ in range(ctx.n(1, 2)):
             check_case(ctx, report, gen_median(rng, shape))
             report.count("median_block_boundary")
-    for _ in range(ctx.n(70, 1200)):
+    for _ in range(ctx.n(70, 3000)):
         check_case(ctx, report, gen_bilateral(rng))
         report.count("bilateral_small")
     for shape in BILATERAL_BOUNDARY_QUICK + (BILATERAL_BOUNDARY_THOROUGH if ctx.thorough else []):
         for _ in range(ctx.n(1, 2)):
             check_case(ctx, report, gen_bilateral(rng, shape))
             report.count("bilateral_block_boundary")
-    for _ in range(ctx.n(40, 600)):
+    for _ in range(ctx.n(40, 1500)):
         check_case(ctx, report, gen_intervals(rng))
         report.count("intervals")
     for shape in [(101, 3), (3, 102)]:
